@@ -819,7 +819,8 @@ theorem upDirty_commit (collapse : Int) (t : WT) (hu : UpDirty t.root) :
   simp only at hu
   by_cases hd : root.dirty = false
   · have e : (commit H ⟨root, hasDb, store, oldRoot, deleted, tempDeleted, pending, created⟩ collapse).1.root = root := by
-      simp [commit, hd]
+      simp only [commit, hd, Bool.not_false, if_true]
+      split <;> rfl
     rw [e]; exact ⟨hd, hu⟩
   · have hd' : root.dirty = true := by simpa using hd
     cases root with
